@@ -35,8 +35,13 @@ def proj_keys(ans, pred):
     return "ok " + " ".join(f"{k}={v}" for k, v in a["kv"].items() if pred(k, kind, v))
 
 
+META = {"type_name"}      # AisMessageType::name(): modelled and compared by tools/extras.py, part of no property
+
+
 def int_key(k, kind, v):
     b = base(k)
+    if b in META:
+        return False
     if b in RADIO or b in F32 or b in TEXT or b in BIN or is_enum_key(k, kind) or b in COUNTS:
         return False
     return True
